@@ -61,16 +61,18 @@ def ensure_facts(repo=None, verbose=True):
         fdir = os.path.join(CACHE, 'facts', '%s-%s' % (tag, hsh))
         marker = os.path.join(fdir, 'COMPLETE')
         info = {'repo': repo, 'source_hash': hsh, 'source_files_hashed': nfiles, 'reused': True}
+        if os.path.exists(marker):
+            os.utime(fdir, None)
         if not os.path.exists(marker):
             info['reused'] = False
             t0 = time.time()
             if os.path.isdir(fdir):
                 shutil.rmtree(fdir)
-            # bound the cache: keep at most 2 older fact sets
+            # bound the cache: keep at most 8 older fact sets (LRU by mtime)
             base = os.path.join(CACHE, 'facts')
             if os.path.isdir(base):
                 olds = sorted((os.path.join(base, d) for d in os.listdir(base)), key=os.path.getmtime)
-                for d in olds[:-2]:
+                for d in olds[:-8]:
                     shutil.rmtree(d, ignore_errors=True)
             os.makedirs(fdir, exist_ok=True)
             tgt = os.environ.get('PVX_TARGET', os.path.join(CACHE, 'target'))
